@@ -169,7 +169,7 @@ def check_normalize(case, ctx):
         k = case["k"] % pd
         degs = d["degree"]
         if op == "insert":
-            ins = (["in"] + list(case["ins"][1:])) if case["ins"][0] in ("other", "near") else case["ins"]
+            ins = (["in"] + list(case["ins"][1:])) if case["ins"][0] in ("other", "near", "decimal", "again") else case["ins"]
             pickN = pick_insert(degs[k], build.kvs_of(N)[k], build.sizes_of(N)[k], ins)
             pickF = pick_insert(degs[k], build.kvs_of(Fo)[k], build.sizes_of(Fo)[k], ins)
             if pickN is None or pickF is None or pickN[1:] != pickF[1:]:
@@ -192,7 +192,7 @@ def check_normalize(case, ctx):
         ctx.check(_rel_eq([list(p) for p in N.evalpts], [list(p) for p in Fo.evalpts]), "normalize-op-shape", "shape after %s differs between the two settings" % op)
     elif op == "split" and pd < 3:
         k = case["k"] % pd
-        ins = (["in"] + list(case["ins"][1:3])) if case["ins"][0] in ("other", "near") else case["ins"][:3]
+        ins = (["in"] + list(case["ins"][1:3])) if case["ins"][0] in ("other", "near", "decimal", "again") else case["ins"][:3]
         uN, kind = build.resolve_param(d["degree"][k], build.kvs_of(N)[k], build.sizes_of(N)[k], ins)
         uF, _ = build.resolve_param(d["degree"][k], build.kvs_of(Fo)[k], build.sizes_of(Fo)[k], ins)
         if kind in ("start", "end"):
